@@ -8,7 +8,11 @@ CONSTANTS
   BoundLen = 1
   Limits = {0, 1}
   Stops = {0}
-  Walk = FALSE
+  Mode = "cases"
+  L = 333
+  Sizes = {}
+  HistStores <- HistStoresQuick
+  HistKinds = {}
   MaxSteps = 0
 INVARIANTS ImplAgrees
 CHECK_DEADLOCK FALSE
